@@ -3,9 +3,10 @@ import Tbx.Model.Cross
 Executable model of `convex_hull::monotone_chain` (src/convex_hull.rs), Andrew's monotone chain.
 
   * n <= 3: the input is returned as it is;
-  * `sort_unstable_by_key(|a| (a.lon, a.lat))`: modelled by `List.mergeSort` with the same
-    lexicographic key.  Two coordinates with equal keys are equal values, so every sorting
-    algorithm (stable or not) produces the same list; duplicates stay in the list;
+  * `sort_unstable_by_key(|a| (a.lon, a.lat))`: modelled by an insertion sort with the same
+    lexicographic key (structural recursion, so that concrete instances reduce in the kernel).
+    Two coordinates with equal keys are equal values, so every sorting algorithm (stable or not)
+    produces the same list (`Tbx.Geo.sortLonLat_sorted`, `mem_sortLonLat`); duplicates stay in the list;
   * the Rust `stack: Vec<_>` is the list `st` with the TOP AT THE HEAD, so `stack[len-1]` is the
     head `a` and `stack[len-2]` the second element `o`;
   * `while stack.len() >= 2 + lower && !is_clock_wise_turn(stack[len-2], stack[len-1], p) { pop }`
@@ -17,7 +18,11 @@ namespace Tbx.Geo
 /-- the sort key comparison (a.lon, a.lat) <= (b.lon, b.lat) -/
 def lonLatLe (a b : Coord) : Bool := decide (a.lon < b.lon) || (decide (a.lon = b.lon) && decide (a.lat ≤ b.lat))
 
-def sortLonLat (l : List Coord) : List Coord := l.mergeSort lonLatLe
+def insertLonLat (x : Coord) : List Coord → List Coord
+  | [] => [x]
+  | y :: ys => if lonLatLe x y then x :: y :: ys else y :: insertLonLat x ys
+
+def sortLonLat (l : List Coord) : List Coord := l.foldr insertLonLat []
 
 /-- the inner `while` loop for the incoming point `p`; `minLen` is `2` for the lower and
 `2 + lower_stack_len` for the upper half -/
@@ -42,6 +47,42 @@ def monotoneChain (input : List Coord) : List Coord :=
     let lower := (lowerStack cs).tail
     let full := (chain (2 + lower.length) lower cs.reverse).tail
     full.reverse
+
+/-! The same algorithm with the i64 orientation test of the source (`isCWI64`): `none` = an intermediate
+of `is_clock_wise_turn` leaves the i64 range (overflow panic / wrap).  `&&` short-circuits: the test is
+only evaluated when the stack is long enough.  `Tbx.Props.C19.hull_no_overflow` shows that on valid
+coordinates this never happens and the result is `monotoneChain`. -/
+
+def popWhileI64 (minLen : Nat) (p : Coord) : List Coord → Option (List Coord)
+  | [] => some []
+  | a :: rest =>
+    match rest with
+    | [] => some [a]
+    | o :: _ =>
+      if minLen ≤ rest.length + 1 then
+        match isCWI64 o a p with
+        | none => none
+        | some cw => if !cw then popWhileI64 minLen p rest else some (a :: rest)
+      else some (a :: rest)
+
+def chainI64 (minLen : Nat) (st : List Coord) : List Coord → Option (List Coord)
+  | [] => some st
+  | p :: ps =>
+    match popWhileI64 minLen p st with
+    | none => none
+    | some st' => chainI64 minLen (p :: st') ps
+
+def monotoneChainI64 (input : List Coord) : Option (List Coord) :=
+  if input.length ≤ 3 then some input
+  else
+    let cs := sortLonLat input
+    match chainI64 2 [] cs with
+    | none => none
+    | some low =>
+      let lower := low.tail
+      match chainI64 (2 + lower.length) lower cs.reverse with
+      | none => none
+      | some full => some full.tail.reverse
 
 /-- number of pops the `while` loop performs (statistics for the driver only) -/
 def popCount (minLen : Nat) (p : Coord) : List Coord → Nat
